@@ -203,6 +203,35 @@ func sortedStrict[T comparable](c *core.Ctx, tname string, gen func(*core.Rand) 
 		}
 		return true
 	}
+	if len(model) >= 100 && r.Bool() {
+		// a burst of removals from the front half of a big slice (pop-min style)
+		burst := r.Range(60, len(model)-20)
+		for i := 0; i < burst && len(model) > 0; i++ {
+			pos := r.Intn(len(model)/2 + 1)
+			if r.Chance(2, 3) {
+				pos = 0
+			}
+			v := model[pos]
+			hist = append(hist, fmt.Sprintf("burst:Remove(%v)", v))
+			var idx int
+			if p, pv := core.Catch(func() { idx = s.Remove(v) }); p {
+				fail("Remove(present):panic", fmt.Sprintf("Remove(%v) panicked: %v", v, pv))
+				return
+			}
+			if idx < 0 || idx >= len(model) || model[idx] != v {
+				fail("Remove(present):returned-index", fmt.Sprintf("burst: Remove(%v) returned %d", v, idx))
+				return
+			}
+			model = append(model[:idx:idx], model[idx+1:]...)
+			if i%16 == 15 && !fullCheck("Remove(present)") {
+				return
+			}
+		}
+		c.Count("front_removal_bursts", 1)
+		if !fullCheck("Remove(present)") {
+			return
+		}
+	}
 	for step = 0; step < nops; step++ {
 		switch r.Pick(30, 12, 8, 8, 4, 10, 10, 4) {
 		case 0: // Add
